@@ -149,6 +149,10 @@ func runC12(w *W) {
 		w.Count(strings.SplitN(desc, ":", 2)[0])
 		hexIn := hexs(in)
 		items, pv := safeTokenize(in)
+		if strings.HasPrefix(pv, "lexer-overflow") {
+			w.Report(Finding{Kind: "lexer-totality", Key: "lexer-totality@nontermination", Input: fmt.Sprintf("%q", trunc(string(in), 300)), InputHex: hexIn, Detail: pv})
+			return
+		}
 		if pv != "" {
 			w.Report(Finding{Kind: "lexer-panic", Key: "lexer-panic", Input: fmt.Sprintf("%q", trunc(string(in), 300)), InputHex: hexIn, Detail: pv})
 			return
